@@ -7,12 +7,13 @@ import re
 import shutil
 import sys
 
-SRCS = ["/tmp/seeded", "/tmp/seeded2"]
+SRCS = ["/tmp/seeded", "/tmp/seeded2", "/tmp/seeded3"]
 DST = "/verif/seeded"
 
 
 ORDER = ["/tmp/seeded/results.batch1.txt", "/tmp/seeded/results.txt", "/tmp/seeded/results.batch3.txt",
-         "/tmp/seeded/results.batch4.txt", "/tmp/seeded2/results.txt", "/tmp/seeded2/results2.txt", "/tmp/seeded2/results3.txt"]
+         "/tmp/seeded/results.batch4.txt", "/tmp/seeded2/results.txt", "/tmp/seeded2/results2.txt", "/tmp/seeded2/results3.txt",
+         "/tmp/seeded3/results.txt", "/tmp/seeded3/results2.txt"]
 
 
 def parse_results(paths):
@@ -130,7 +131,7 @@ def design_table():
         m = json.load(open(mp))
         notes = os.path.join(DST, d, "notes.md")
         title = open(notes).readline().strip().lstrip("# ") if os.path.exists(notes) else ""
-        title = re.sub(r"^C\d\d\s*/\s*(change\s*)?[ABC]\s*[-:]\s*", "", title)
+        title = re.sub(r"^C\d\d\s*/\s*(change\s*)?[ABCD]\s*[-:]\s*", "", title)
         files = [l[6:].strip() for l in open(os.path.join(DST, d, "patch.diff")) if l.startswith("+++ b/")]
         sig = {}
         for k, v in m["checks_run_against_it"].items():
